@@ -716,6 +716,8 @@ def m_replace(ex, c, a, m):
             a[0].set([])
         elif type(old) is Adt and old.name == 'Option':
             a[0].set(NONE())
+        elif isinstance(old, Cursor):
+            a[0].set(Cursor(S()))
         else:
             raise Unmodelled('mem::take of %r' % (old,))
     else:
